@@ -237,6 +237,21 @@ func (s *sys) probeOne(v uint32) string {
 	if got := s.f.Contains(b); got != want {
 		return fmt.Sprintf("Contains(%v as 16-byte) = %v, model says %v", a, got, want)
 	}
+	if !s.m.matchAll && want {
+		// an address that is not an IPv4 address at all lies in no IPv4 range, whatever its last four bytes say (with
+		// 0.0.0.0/0 present "matches everything" is taken at its word and nothing is asserted)
+		for _, head := range [][]byte{{0x20, 0x01, 0x0d, 0xb8, 0, 0, 0, 0, 0, 0, 0, 0}, {0, 0, 0, 0, 0, 0, 0, 0, 0, 0, 0, 0}, {0, 0x64, 0xff, 0x9b, 0, 0, 0, 0, 0, 0, 0, 0}, {0xfe, 0x80, 0, 0, 0, 0, 0, 0, 0, 0, 0, 1}, {0, 0, 0, 0, 0, 0, 0, 0, 0, 0, 0xff, 0xfe}} {
+			six := net.IP(append(append([]byte{}, head...), a...))
+			if s.f.Contains(six) {
+				return fmt.Sprintf("Contains(%v) = true: an IPv6 address, not a 16-byte IPv4 address (its last four bytes are %v, which a present range covers)", six, a)
+			}
+		}
+		for _, odd := range []net.IP{nil, {}, a[:3], append(append(net.IP{}, a...), 0), append(net.IP{0}, a...)} {
+			if s.f.Contains(odd) {
+				return fmt.Sprintf("Contains(% x) = true for a %d-byte value that is no IP address", []byte(odd), len(odd))
+			}
+		}
+	}
 	if !a.Equal(ip4(v)) || !b.Equal(ip4(v)) || len(a) != 4 || len(b) != 16 {
 		return fmt.Sprintf("Contains changed the address it was asked about: %v became %v / %v", ip4(v), a, b)
 	}
